@@ -1,5 +1,6 @@
 import TinyFlux.Mirror.Ops
 import TinyFlux.Mirror.Database
+import TinyFlux.Mirror.Closed
 /-!
 # C02 over the translated source: what `Index.remove` / `Index.update` of index.py do to the index after a removal
 
@@ -40,6 +41,19 @@ theorem translated_remove_helper (norm : Point → Point) (g : DSelf) (q : Query
         ∧ GWF g'._index
     | .error _ => ∃ e', DatabaseImpl._remove_helper modelExt g q m = .error e' :=
   remove_helper_ok norm g q m hg htemp hlen
+
+/-- … and over the *translated* `Index.search` (`translatedExt`): every method a removal runs through below
+    `_remove_helper` — Index.search, _search_helper, the leaf searches, find_*, Index.remove / update / invalidate / _reset —
+    is generated code; what stays outside is `query(point)`, `index_is_exact` and the storage object -/
+theorem translated_remove_helper_closed (norm : Point → Point) (g : DSelf) (q : Query) (m : Option String)
+    (hg : GWF g._index) (hts : g._index._timestamps.length = g._index._storage_pos_sorted_by_ts.length)
+    (htemp : g._storage._temp = [])
+    (hlen : g._auto_index = true → g._index._num_items = g._storage._items.length) :
+    match (absDB norm g).removeHelper q m with
+    | .ok (s', n) => ∃ g', DatabaseImpl._remove_helper translatedExt g q m = .ok (g', n) ∧ StateEq (absDB norm g') s'
+        ∧ GWF g'._index
+    | .error _ => ∃ e', DatabaseImpl._remove_helper translatedExt g q m = .error e' :=
+  remove_helper_closed norm g q m hg hts htemp hlen
 
 /-- `TinyFlux._reset_database` as translated: the Model's `resetDatabase`, exactly -/
 theorem translated_reset_database (norm : Point → Point) (g : DSelf) :
